@@ -54,7 +54,7 @@ pub broadcast proof fn lemma_div_lower_c(x: int, y: int, ym: int, q: int)
     lemma_div_lower(x, y, ym, q);
 }
 }
-broadcast use {conv_axioms::axiom_from_empty_domain, nl_lemmas::lemma_mul_sign, nl_lemmas::lemma_mul_upper, nl_lemmas::lemma_mul_lower, nl_lemmas::lemma_i32_product_fits_i64, mul_lemmas::lemma_div_upper, mul_lemmas::lemma_div_lower, mul_lemmas::lemma_div_upper_c, mul_lemmas::lemma_div_lower_c};
+broadcast use {conv_axioms::axiom_from_empty_domain, nl_lemmas::lemma_mul_sign, nl_lemmas::lemma_i32_product_fits_i64};
 
 pub open spec fn mul_holds<VA: IntegerVariable, VB: IntegerVariable, VC: IntegerVariable>(a: &VA, b: &VB, c: &VC, x: Asg) -> bool {
     a.eval(x) * b.eval(x) == c.eval(x)
